@@ -76,7 +76,8 @@ def walk(x):
 
 # ------------------------------------------------------------------ document model + emitter
 
-_KEYS = ["a", "b", "c", "name", "port", "x-y", "tbl", "sub", "ünï", "k 1", "log_level", "1"]
+# (quoted keys may contain what separates keys elsewhere: "a.b" is ONE key, next to a table a with a key b)
+_KEYS = ["a", "b", "c", "name", "port", "x-y", "tbl", "sub", "ünï", "k 1", "log_level", "1", "a.b", "tbl.sub", "example.com", "a/b", "a=b", "#c"]
 
 
 def _key(k):
